@@ -2,6 +2,9 @@
 from __future__ import annotations
 
 
+ATOMS = {}  # letter -> real alphabet item (set by a check that wants non-trivial items, e.g. words or tuples)
+
+
 def to_expr(t):
     """pattern tree (mc.refs.regex) -> real codelimit Expression"""
     from codelimit.common.gsm.operator.OneOrMore import OneOrMore
@@ -27,7 +30,11 @@ def to_expr(t):
         return ZeroOrMore(to_expr(t[1]))
     if op == "plus":
         return OneOrMore(to_expr(t[1]))
-    return op
+    return ATOMS.get(op, op)
+
+
+def real_seq(seq):
+    return [ATOMS.get(ch, ch) for ch in seq]
 
 
 def top_expr(t):
